@@ -114,6 +114,16 @@ def run(full=False):
              "mc/MC_Lookup.cfg", "mc/MC_Lookup.tla", "arena: slot index off by one"),
             ("HpoCombine.tla", "ELSE <<Cols(M) * SumRowMax(M) + Rows(M) * SumColMax(M), 2 * Rows(M) * Cols(M)>>", "ELSE <<Rows(M) * SumRowMax(M) + Cols(M) * SumColMax(M), 2 * Rows(M) * Cols(M)>>",
              "mc/MC_Combine.cfg", "mc/MC_Combine.tla", "funSimAvg divides by the wrong dimension (transpose lemma must fail)"),
+            ("HpoAlgo.tla", "allp' = [allp EXCEPT ![f.t] = f.res \\cup parents[f.t]]", "allp' = [allp EXCEPT ![f.t] = f.res]",
+             "mc/MC_Refine3q.cfg", "mc/MC_Refine.tla", "refinement: a connect machine that forgets the direct parents does not refine HpoCore!ConnectAll"),
+            ("HpoAlgo.tla", "Put(@, lcur.x, [name |-> nfact + 1, hpos |-> lcur.hpos])", "Put(@, lcur.x, [name |-> nfact + 1, hpos |-> lcur.hpos \\ {Max(lcur.hpos \\cup {0})}])",
+             "mc/MC_Refine3q.cfg", "mc/MC_Refine.tla", "refinement: a binary loader that drops a direct term of the record does not refine HpoCore!LoadRecord"),
+            ("HpoLinkage.tla", "MinPairs(act, d) == {p \\in Pairs(act) : \\A q \\in Pairs(act) : d[p] <= d[q]}", "MinPairs(act, d) == {p \\in Pairs(act) : \\A q \\in Pairs(act) : d[p] >= d[q]}",
+             "mc/MC_Linkage_single.cfg", "mc/MC_Linkage.tla", "linkage machine: the farthest pair is merged first (Monotone must fail)"),
+            ("HpoSetMachine.tla", "[] op.name = \"child_nodes\"                               -> {t \\in S : ~\\E u \\in S : t \\in Anc(WPar, u)}", "[] op.name = \"child_nodes\"                               -> {t \\in S : ~\\E u \\in S : u \\in Anc(WPar, t)}",
+             "mc/MC_SetMachine1.cfg", "mc/MC_SetMachine.tla", "set machine: child_nodes keeps the ancestors instead (AggregateLaws must fail)"),
+            ("HpoReject.tla", "IF OldCode /\\ p \\in Terms", "IF p \\in Terms",
+             "mc/MC_Reject.cfg", "mc/MC_Reject.tla", "builder: a rejected add_parent that mutates the parent first (NoDangling / RejectedStutters must fail)"),
         ]
         for fname, old_, new_, cfg, mod, what in specmut:
             d = os.path.join(ctx.scratch, "specmut")
